@@ -9,12 +9,12 @@ differ in their BABE slot).  Every Go function that takes an `isDescendantOfFunc
 -/
 namespace Gossamer.C23
 
-abbrev Blk := Nat
+-- (block ids are plain `Nat`s: 0 = genesis)
 
 /-- Go `pendingChange` (also the announcement carried by a header's consensus digest):
     announcing block, kind, delay, next authorities (a tag), `bestFinalizedNumber` (forced only) -/
 structure Ann where
-  blk : Blk
+  blk : Nat
   forced : Bool
   delay : Nat
   tag : Nat
@@ -27,20 +27,20 @@ structure Tree where
   anns : List Ann
 deriving Repr, Inhabited
 
-def par (t : Tree) (b : Blk) : Blk := t.parents.getD (b - 1) 0
+def par (t : Tree) (b : Nat) : Nat := t.parents.getD (b - 1) 0
 
 /-- `b, parent b, …, 0` (fuel = `b` suffices because `par b < b`) -/
-def up (t : Tree) : Nat → Blk → List Blk
+def up (t : Tree) : Nat → Nat → List Nat
   | 0, b => [b]
   | f + 1, b => if b = 0 then [0] else b :: up t f (par t b)
 
-def chain (t : Tree) (b : Blk) : List Blk := up t b b
+def chain (t : Tree) (b : Nat) : List Nat := up t b b
 
 /-- header number = depth -/
-def num (t : Tree) (b : Blk) : Nat := (chain t b).length - 1
+def num (t : Tree) (b : Nat) : Nat := (chain t b).length - 1
 
 /-- `a` is `d` or an ancestor of `d` -/
-def anc (t : Tree) (a d : Blk) : Bool := (chain t d).contains a
+def anc (t : Tree) (a d : Nat) : Bool := (chain t d).contains a
 
 /-- `pendingChange.effectiveNumber` -/
 def eff (t : Tree) (c : Ann) : Nat := num t c.blk + c.delay
@@ -63,7 +63,7 @@ def Node.ann : Node → Ann
 def Node.kids : Node → List Node
   | .mk _ ks => ks
 
-abbrev IsD := Blk → Blk → Option Bool
+abbrev IsD := Nat → Nat → Option Bool
 
 /-! ### orderedPendingChanges (forced changes) -/
 
@@ -101,7 +101,7 @@ def forcedImport (t : Tree) (isD : IsD) (pc : Ann) (oc : List Ann) : Except Err 
   | .ok () => .ok (insertAt oc (goSearch (searchPred t oc pc) (oc.length + 1) 0 oc.length) pc)
 
 /-- `orderedPendingChanges.findApplicable` -/
-def forcedFind (t : Tree) (isD : IsD) (h : Blk) (n : Nat) : List Ann → Except Err (Option Ann)
+def forcedFind (t : Tree) (isD : IsD) (h : Nat) (n : Nat) : List Ann → Except Err (Option Ann)
   | [] => .ok none
   | c :: cs =>
     if h = c.blk ∧ eff t c = n then .ok (some c)
@@ -110,7 +110,7 @@ def forcedFind (t : Tree) (isD : IsD) (h : Blk) (n : Nat) : List Ann → Except 
       | some d => if d ∧ eff t c = n then .ok (some c) else forcedFind t isD h n cs
 
 /-- `orderedPendingChanges.pruneChanges` (the slice is replaced only when no ancestry check failed) -/
-def forcedPrune (isD : IsD) (h : Blk) : List Ann → Except Err (List Ann)
+def forcedPrune (isD : IsD) (h : Nat) : List Ann → Except Err (List Ann)
   | [] => .ok []
   | c :: cs =>
     match isD h c.blk with
@@ -155,7 +155,7 @@ def schedImport (t : Tree) (isD : IsD) (pc : Ann) (roots : List Node) : Except E
   | .ok none => .ok (roots ++ [.mk pc []])
 
 /-- the loop over `pcn.nodes` in `findApplicableChange` (the ancestry call precedes the number test) -/
-def kidsCheck (t : Tree) (isD : IsD) (h : Blk) (n : Nat) : List Node → Except Err Bool
+def kidsCheck (t : Tree) (isD : IsD) (h : Nat) (n : Nat) : List Node → Except Err Bool
   | [] => .ok true
   | k :: ks =>
     match isD k.ann.blk h with
@@ -163,7 +163,7 @@ def kidsCheck (t : Tree) (isD : IsD) (h : Blk) (n : Nat) : List Node → Except 
     | some d => if num t k.ann.blk ≤ n ∧ d then .error .unfin else kidsCheck t isD h n ks
 
 /-- the condition of `findApplicableChange` -/
-def applicableCond (t : Tree) (isD : IsD) (h : Blk) (n : Nat) (r : Node) : Except Err Bool :=
+def applicableCond (t : Tree) (isD : IsD) (h : Nat) (n : Nat) (r : Node) : Except Err Bool :=
   if eff t r.ann > n then .ok false
   else if h ≠ r.ann.blk then
     match isD r.ann.blk h with
@@ -191,7 +191,7 @@ def lookupForced (cond : Ann → Except Err Bool) : List Ann → Except Err (Opt
     | .ok false => lookupForced cond cs
 
 /-- the test of `changeTree.pruneChanges`: the root descends from `h`, or is announced by an ancestor of `h` -/
-def onBranch (isD : IsD) (h : Blk) (r : Node) : Except Err Bool :=
+def onBranch (isD : IsD) (h : Nat) (r : Node) : Except Err Bool :=
   match isD h r.ann.blk with
   | none => .error .anc
   | some true => .ok true
@@ -201,7 +201,7 @@ def onBranch (isD : IsD) (h : Blk) (r : Node) : Except Err Bool :=
     | some d => .ok d
 
 /-- `changeTree.pruneChanges` -/
-def schedPrune (isD : IsD) (h : Blk) : List Node → Except Err (List Node)
+def schedPrune (isD : IsD) (h : Nat) : List Node → Except Err (List Node)
   | [] => .ok []
   | r :: rs =>
     match onBranch isD h r with
@@ -212,7 +212,7 @@ def schedPrune (isD : IsD) (h : Blk) : List Node → Except Err (List Node)
       | .ok l => .ok (if d then r :: l else l)
 
 /-- `changeTree.findApplicable`: the node found (if any) and the new roots -/
-def schedFindApplicable (t : Tree) (isD : IsD) (h : Blk) (n : Nat) (roots : List Node) :
+def schedFindApplicable (t : Tree) (isD : IsD) (h : Nat) (n : Nat) (roots : List Node) :
     Except Err (Option Node × List Node) :=
   match lookupRoots (applicableCond t isD h n) roots with
   | .error e => .error e
@@ -226,9 +226,9 @@ def schedFindApplicable (t : Tree) (isD : IsD) (h : Blk) (n : Nat) (roots : List
 
 structure St where
   /-- blocks whose header the BlockState can return: block-tree nodes and the finalised chain -/
-  live : List Blk
+  live : List Nat
   /-- root of the block tree = last finalised block -/
-  root : Blk
+  root : Nat
   forced : List Ann
   roots : List Node
   setId : Nat
@@ -244,7 +244,7 @@ def St.init : St :=
 def lookup (m : List (Nat × Nat)) (k : Nat) : Option Nat := (m.find? (·.1 = k)).map (·.2)
 
 /-- node of the block tree -/
-def inBt (t : Tree) (s : St) (b : Blk) : Bool := s.live.contains b && anc t s.root b
+def inBt (t : Tree) (s : St) (b : Nat) : Bool := s.live.contains b && anc t s.root b
 
 /-- `GrandpaState.isDescendantOf` over `BlockState.IsDescendantOf`: the block tree answers when it holds both
     blocks; otherwise headers are followed, which fails with `database.ErrNotFound` for a block that is
@@ -289,7 +289,7 @@ def handleDigestsPartial (t : Tree) (s : St) : List Ann → St
       | .ok r => handleDigestsPartial t { s with roots := r } ds
 
 /-- `ApplyForcedChanges` -/
-def applyForced (t : Tree) (s : St) (b : Blk) : Except Err St :=
+def applyForced (t : Tree) (s : St) (b : Nat) : Except Err St :=
   match forcedFind t (isDesc t s) b (num t b) s.forced with
   | .error e => .error e
   | .ok none => .ok s
@@ -307,7 +307,7 @@ def applyForced (t : Tree) (s : St) (b : Blk) : Except Err St :=
       .ok { s2 with forced := [], roots := [] }
 
 /-- `imp b`: Service.handleBlock = AddBlock, HandleDigests, ApplyForcedChanges -/
-def importBlock (t : Tree) (s : St) (b : Blk) : St × String :=
+def importBlock (t : Tree) (s : St) (b : Nat) : St × String :=
   if !inBt t s (par t b) then (s, "e-parent")
   else
     let s0 := if inBt t s b then s else { s with live := s.live ++ [b] }
@@ -320,7 +320,7 @@ def importBlock (t : Tree) (s : St) (b : Blk) : St × String :=
       | .ok s2 => (s2, "ok")
 
 /-- `ApplyScheduledChanges` -/
-def applyScheduled (t : Tree) (s : St) (b : Blk) : Except Err St :=
+def applyScheduled (t : Tree) (s : St) (b : Nat) : Except Err St :=
   match forcedPrune (isDesc t s) b s.forced with
   | .error e => .error e
   | .ok f =>
@@ -332,19 +332,19 @@ def applyScheduled (t : Tree) (s : St) (b : Blk) : Except Err St :=
       | .ok (some r, roots') => .ok (startNext { s1 with roots := roots' } r.ann.tag (num t b))
 
 /-- state after a failing `ApplyScheduledChanges` -/
-def applyScheduledPartial (t : Tree) (s : St) (b : Blk) : St :=
+def applyScheduledPartial (t : Tree) (s : St) (b : Nat) : St :=
   match forcedPrune (isDesc t s) b s.forced with
   | .error _ => s
   | .ok f => { s with forced := f }
 
 /-- `SetFinalisedHash`: only a node of the block tree can be finalised; everything that is neither an
     ancestor nor a descendant of it is forgotten -/
-def setFinalised (t : Tree) (s : St) (b : Blk) : Option St :=
+def setFinalised (t : Tree) (s : St) (b : Nat) : Option St :=
   if inBt t s b then some { s with live := s.live.filter (fun x => anc t b x || anc t x b), root := b }
   else none
 
 /-- `fin b`: SetFinalisedHash, then (finalisation notification) ApplyScheduledChanges -/
-def finalise (t : Tree) (s : St) (b : Blk) : St × String :=
+def finalise (t : Tree) (s : St) (b : Nat) : St × String :=
   match setFinalised t s b with
   | none => (s, "e-fin")
   | some s1 =>
@@ -353,8 +353,8 @@ def finalise (t : Tree) (s : St) (b : Blk) : St × String :=
     | .ok s2 => (s2, "ok")
 
 inductive Op where
-  | imp (b : Blk)
-  | fin (b : Blk)
+  | imp (b : Nat)
+  | fin (b : Nat)
 deriving Repr, DecidableEq
 
 def step (t : Tree) (s : St) : Op → St × String
@@ -381,7 +381,7 @@ def setIdAtLoop (change : List (Nat × Nat)) (n : Nat) : Nat → Nat → Option 
 def setIdAt (s : St) (n : Nat) : Option Nat := setIdAtLoop s.change n (s.setId + 2) s.setId
 
 /-- `NextGrandpaAuthorityChange`: `none` = ancestry error, `some 0` = ErrNoNextAuthorityChange -/
-def nextChange (t : Tree) (s : St) (b : Blk) : Option Nat :=
+def nextChange (t : Tree) (s : St) (b : Nat) : Option Nat :=
   let n := num t b
   let fc := lookupForced (fun c => match isDesc t s c.blk b with
     | none => .error .anc
